@@ -107,6 +107,30 @@ def _op_table(h, sty_sub):
     return out
 
 
+@rule("C18", "R9", "one leaf converter: the flattening builder and the OR-tree builder turn a comparison into a predicate through the same routine, try_extract_comparison (column-first "
+      "and, mirrored, literal-first); the column-first-only helper try_column_op_value is called from nowhere else - a builder that uses it directly cannot express `5 < x`, the "
+      "disjunction containing it is dropped as inexpressible and every row is delivered")
+def r9(cx):
+    tcv = QF + "try_column_op_value"
+    tec = QF + "try_extract_comparison"
+    n = 0
+    for k, c in cx.prog.sites(lambda c: c == tcv):
+        p = named_parent(k)
+        n += 1
+        if p == tec:
+            cx.passed(p, "column-first-helper-only-inside-the-leaf-converter", [c["sp"]])
+        else:
+            cx.violation(p, "leaf-conversion-bypasses-mirroring:%s" % p.rsplit("::", 1)[1], "%s: %s converts a comparison with the column-first-only helper: a literal-first comparison (`90.0 < value`) is "
+                         "not recognised there, although the other builder recognises it" % (c["sp"], p.rsplit("::", 1)[1]), [c["sp"]])
+    cx.floor("calls of try_column_op_value", n, 2)
+    users = {named_parent(k) for k, c in cx.prog.sites(lambda c: c == tec)}
+    want = {QF + "extract_predicates_from_expr", QF + "expr_to_predicate"}
+    if want <= users:
+        cx.passed(tec, "both-builders-use-the-leaf-converter", [], sorted(u.rsplit("::", 1)[1] for u in users))
+    else:
+        cx.violation(tec, "both-builders-use-the-leaf-converter", "%s no longer convert(s) leaves through try_extract_comparison" % sorted(u.rsplit("::", 1)[1] for u in want - users), [])
+
+
 @rule("C18", "R2", "operator tables: reversed operands use the mirrored operator; column-op-value maps each SQL comparison to the predicate of the same name; apply_comparison evaluates "
       "predicate X as `row X literal` for strings, integers and floats; the merge-point cut clears a row only where ts < merge point")
 def r2(cx):
